@@ -802,6 +802,67 @@ pub fn special(rec: &mut Rec) {
             }
         }
     }
+    // MultilinearPC: a point with the wrong number of coordinates (0..=nv+2, shorter and longer), for polynomials that do
+    // and do not depend on the last variables: `open` must refuse; should a proof come back anyway, `check` may not return
+    // true for it (neither for the proof as returned nor for an honest full proof cut to the point's length)
+    {
+        let nv = 4usize;
+        let mut rng = seed_rng(rec.seed, 10);
+        let mpp = Mlp::setup(nv, &mut rng);
+        let (ck, vk) = Mlp::trim(&mpp, nv);
+        let full_pts = crate::sch::ml_points::<Fr381>(nv, rec.seed);
+        let shapes = crate::sch::ml_shapes::<Fr381>(nv, rec.seed);
+        let mut polys: Vec<(String, MLE<Fr381>)> = shapes.iter().filter(|(n, _)| n == "const" || n == "dense" || n == "e1").cloned().collect();
+        // a polynomial that ignores its last two variables (evaluation table = four copies of a quarter)
+        let quarter = rho_stream::<Fr381>(rec.seed, 55, 4);
+        let lifted: Vec<Fr381> = (0..16).map(|i| quarter[i % 4]).collect();
+        polys.push(("ignores-last-two".into(), MLE::<Fr381>::from_evaluations_vec(nv, lifted)));
+        for (pname, p) in polys.iter() {
+            let c = match catch(|| Mlp::commit(&ck, p)) {
+                Ok(c) => c,
+                Err(_) => continue,
+            };
+            let honest = catch(|| Mlp::open(&ck, p, &full_pts[0].1)).ok();
+            for len in [0usize, 1, 2, 3, 5, 6] {
+                let mut z: Vec<Fr381> = full_pts[0].1.iter().cloned().take(len).collect();
+                while z.len() < len {
+                    z.push(rho::<Fr381>(rec.seed, 60 + z.len()));
+                }
+                // the value the shortened / lengthened request could at best mean: p at the full point
+                let v = p.evaluate(&full_pts[0].1);
+                if len > nv {
+                    // coordinates appended to a full point: like PST13 (section 9, "not findings") the scheme reads the first nv
+                    // coordinates and ignores the rest; the claim it accepts is true of the polynomial, so only a FALSE value
+                    // accepted there is a violation
+                    if let Ok(pf) = catch(|| Mlp::open(&ck, p, &z)) {
+                        let dt = mlp_check(&vk, &c, &z, v, &pf);
+                        let df = mlp_check(&vk, &c, &z, v + Fr381::one(), &pf);
+                        rec.count_points(1);
+                        rec.class(if dt.accepted() { "extra-coordinates-ignored" } else { "refused" });
+                        if df.accepted() {
+                            rec.violation("C17/MLP/open/point-of-wrong-length", &id, format!("polynomial '{}': a false value verifies at a point with {} coordinates", pname, len));
+                        }
+                    } else {
+                        refused(rec, "MLP", "open", "point-of-wrong-length", &id, false, String::new());
+                    }
+                    continue;
+                }
+                match catch(|| Mlp::open(&ck, p, &z)) {
+                    Err(_) => refused(rec, "MLP", "open", "point-of-wrong-length", &id, false, String::new()),
+                    Ok(pf) => {
+                        let d = mlp_check(&vk, &c, &z, v, &pf);
+                        refused(rec, "MLP", "open", "point-of-wrong-length", &id, d.accepted(), format!("polynomial '{}' ({} variables) opened at a point with {} coordinates and the proof verifies: {}", pname, nv, len, d.short()));
+                    }
+                }
+                if let Some(h) = &honest {
+                    let mut cut = h.clone();
+                    cut.proofs.truncate(len);
+                    let d = mlp_check(&vk, &c, &z, v, &cut);
+                    refused(rec, "MLP", "check", "point-of-wrong-length", &id, d.accepted(), format!("polynomial '{}': an honest proof cut to {} elements verifies at a point with {} coordinates: {}", pname, len, len, d.short()));
+                }
+            }
+        }
+    }
     // streaming KZG: polynomial longer than the key
     let sck = str_key(4, 2, rec.seed);
     let vk = SVk::from(&sck);
